@@ -130,5 +130,10 @@ def run(ctx, rep):
     shared.include(ctx, rep, lambda c_, r_: modular.check(c_, r_, _CV.get(c_)), {'R1.2'}, why='360->0 seam hygiene of the interpolation')
     # shared mechanism: the clock-time conversion (minutes from the same hour, wraps after the offset, bounded operands)
     from . import shared, c11 as _c11
-    shared.include(ctx, rep, _c11.run, {'R11.3', 'R11.4', 'R11.7'}, why='every reported hour becomes a valid clock time (minutes from the same hour, wraps, bounded operands)')
+    # the property is stated for unrounded seconds: in mode `None` the converter must hand the seconds through untouched (the `None` row of
+    # C11's action table, for this property's own times); the other rows of the table are C11's alone
+    shared.include(ctx, rep, _c11.run, {'R11.1', 'R11.3', 'R11.4', 'R11.7'},
+                   keys=lambda key: key.count(':') >= 2 or key in ('None:Shurooq', 'None:Maghrib'),
+                   why='every reported hour becomes a valid clock time (minutes from the same hour, wraps, bounded operands); '
+                       'unrounded seconds (mode None) are reported as computed')
 
